@@ -594,7 +594,8 @@ def k_blocked_fused(ctx, rng, spec, cfg):
     """legs with fusion history p(s(oo)o): a direct sum made by block(), then hard-fused with another leg; operand 1 has lost a sector of its
     third leg by a contraction with a projector (so its blocked leg no longer shows one charge), operand 2 has not.  Addition, to_numpy and
     contractions over the fused leg must agree with the same operations on the unfused tensors (missing sectors behave as zeros).
-    vdot / tensordot are a recorded defect (known_findings.json): every obligation about them carries the one label KNOWN_BF."""
+    vdot / tensordot over such legs used to fail (defect repaired by /repo commit fca0a19, known_findings.json: fixed); their obligations
+    keep the one label KNOWN_BF."""
     import yastn
     def sparse(name, blocks, s=(1, 1, -1)):
         a = yastn.Tensor(config=cfg, s=s)
